@@ -587,6 +587,8 @@ class Hypergraph:
 
         """
         members = set(members)
+        if None in members:
+            raise XGIError("None cannot be a node or edge")
 
         if idx in self._edge.keys():  # check that uid is not present yet
             warn(f"uid {idx} already exists, cannot add edge {members}")
@@ -714,9 +716,12 @@ class Hypergraph:
                     warn(f"uid {idx} already exists, cannot add edge {members}.")
                     continue
                 try:
-                    self._edge[idx] = set(members)
+                    member_set = set(members)
                 except TypeError as e:
                     raise XGIError("Invalid ebunch format") from e
+                if None in member_set:
+                    raise XGIError("None cannot be a node or edge")
+                self._edge[idx] = member_set
                 for n in members:
                     if n not in self._node:
                         self._node[n] = set()
@@ -774,9 +779,12 @@ class Hypergraph:
                 warn(f"uid {idx} already exists, cannot add edge {members}.")
             else:
                 try:
-                    self._edge[idx] = set(members)
+                    member_set = set(members)
                 except TypeError as e:
                     raise XGIError("Invalid ebunch format") from e
+                if None in member_set:
+                    raise XGIError("None cannot be a node or edge")
+                self._edge[idx] = member_set
 
                 for n in members:
                     if n not in self._node:
